@@ -116,6 +116,10 @@ func Footprint(v *vrt.Ctx) {
 	was := snapshot(shared)
 	v.MarkShared(shared)
 	cfg := engine.Config{Root: "root", FlagCount: 4, OutputSize: 80}
+	if v.Param("lang") == 1 {
+		// a configured language: every session resolves it when it starts
+		cfg.Language = "nor"
+	}
 	enA := engine.NewEngine(cfg, resourceOver(shared, which))
 	enB := engine.NewEngine(cfg, resourceOver(shared, which))
 	if v.Param("debug") == 1 {
